@@ -3,7 +3,7 @@ monotone counters, options dependence, save-visitor category agreement, cache in
 import ast
 
 from sa.core import rule
-from sa.ir import norm, dotted, call_name, recv_text, walk_local, names_in, calls_in_order, AnalysisError, assigned_targets
+from sa.ir import sig_body, norm, dotted, call_name, recv_text, walk_local, names_in, calls_in_order, AnalysisError, assigned_targets
 from sa.pe import specialise, SpecDom
 from sa.sai import Interp, Domain, FALL, St
 from sa.cg import callgraph
@@ -705,7 +705,7 @@ def cv6(prog, rr):
     ref = None
     for name, lst in fam:
         g = prog.method("CoverpointModel", name)
-        body = norm(g.node.body).replace("self." + lst, "self.<L>")
+        body = norm(sig_body(g.node)).replace("self." + lst, "self.<L>")
         rr.inst("walker %s" % name)
         if lst not in norm(g.node):
             rr.finding(g, g.node, "CoverpointModel." + name, "CV6: walker does not walk self.%s" % lst, text="list")
